@@ -287,6 +287,20 @@ def build_cases(ctx, res):
                 for _ in range(ctx.pick(4, 8)):
                     mtag, R, t = P.random_motion(rng, rng.choice(["so3", "axis", "so3-far"]))
                     cases.append(mk_case("rigid", "tie-context:" + mtag, rs2, P.moved(rs2, R, t), source=name))
+    # ---- a structure with modified residues, as PDB (with MODRES records) against mmCIF, in entry numbering and with the
+    # modified residues carrying insertion codes
+    st = call(g3.load, G.path_of("1ehz-assembly-1.cif"))
+    if st[0] == "ok" and st[1].residues and P.identities_unique(list(st[1].residues)):
+        recs = P.table_of([r for r in st[1].residues if r.is_nucleotide])     # the RNA chain (waters and ions left out)
+        if recs is not None:
+            for vtag, vrecs in (("modified-residues", recs), ("modified-residues+icodes", P.table_modified_siblings(recs))):
+                if vrecs is None:
+                    continue
+                pdb, cif = P.table_texts(vrecs)
+                st_p, st_c = call(P.read_text, pdb, ".pdb"), call(P.read_text, cif, ".cif")
+                if st_p[0] == "ok" and st_c[0] == "ok":
+                    cases.append(mk_case("format", "pdb-vs-cif:" + vtag, st_c[1].residues, st_p[1].residues, source="1ehz-assembly-1.cif",
+                                         texts={"base": cif, "other": pdb}, margins_other=False))
     # ---- synthetic placements (threshold straddles, free perturbations, overlapping copies = tied competitors)
     for tag, rs in G.placements(rng, templates, ctx.pick(160, 3000)):
         rs = sorted(rs, key=lambda r: (r.chain, r.number)) if rng.random() < 0.5 else rs
@@ -294,6 +308,12 @@ def build_cases(ctx, res):
             continue
         fam = tag.split(":")[0].rstrip("+-.0123456789e")
         nmot = 3 if fam == "copy" else 1
+        if tag.startswith("dist") and ("e-05" in tag or "0.0001" in tag):
+            # a contact 2e-5 / 1e-4 from the cut-off (20-100 band widths): far translations and rotations, several each,
+            # because arithmetic of lower precision anywhere in the pipeline shows exactly here
+            for _ in range(6):
+                mtag, R, t = P.random_motion(rng, rng.choice(["so3-far", "translation"]))
+                cases.append(mk_case("rigid", "place-dist-tight:" + mtag, rs, P.moved(rs, R, t)))
         for _ in range(nmot):
             mtag, R, t = P.random_motion(rng)
             cases.append(mk_case("rigid", "place-%s:%s" % (fam, mtag), rs, P.moved(rs, R, t), corr=rng.random() < 0.3))
